@@ -151,8 +151,19 @@ def normDepsOp : Handler := fun args =>
   let out := (normDeps r).toArray.qsort (fun a b => a.1 < b.1)
   Json.mkObj [("deps", Json.arr (out.map fun d => Json.arr #[Json.str d.1, Json.bool d.2]))]
 
+/-- the cycle `graph.CheckCycle` prints (null: no cycle / the graph cannot be built); services and `depends_on` arrive in
+arbitrary order, the model sorts as the code does -/
+def cyclePathOp : Handler := fun args =>
+  let p := projOfJson (getObj args "proj")
+  match newGraph p with
+  | .error e => Json.mkObj [("err", Json.str e.name)]
+  | .ok g =>
+    match cyclePath g with
+    | none => Json.mkObj [("path", Json.null)]
+    | some c => Json.mkObj [("path", Json.arr (c.map Json.str).toArray)]
+
 def handlers : List (String × Handler) :=
   [("c10.consistency", consistency), ("c10.cycle", cycle), ("c10.consistent", consistent),
-   ("c10.cycleBatch", cycleBatch), ("c10.validate", validateOp), ("c10.normDeps", normDepsOp)]
+   ("c10.cycleBatch", cycleBatch), ("c10.validate", validateOp), ("c10.normDeps", normDepsOp), ("c10.cyclePath", cyclePathOp)]
 
 end CV.Ops.C10
